@@ -138,6 +138,8 @@ func (reg *Reg) referrerListByAPIPage(ctx context.Context, r ref.Ref, config sch
 	}
 	if link != nil {
 		req.DirectURL = link
+		req.Host = reg.hostByURL(r.Registry, link)
+		req.NoMirrors = true
 	}
 	resp, err := reg.reghttp.Do(ctx, req)
 	if err != nil {
